@@ -36,6 +36,9 @@ PAYLOADS = {
     "esc_x": "bad \\x escape", "esc_N": "bad \\N{ escape", "esc_u": "bad \\u12 escape", "lbrace": "a { b", "rbrace": "a } b", "braces": "a {x} b",
     "hash": "a # b", "percent_s": "a %s b", "nul": "a\x00b", "non_ascii": "héllo 日本 😀", "injection": '"""\nimport os\nos.system("x")\n"""',
     "quote_end": 'ends with "', "backslash_quote": 'a\\"b', "newline_hash": "x\n# y",
+    # unbroken tokens longer than the docstring wrap width: the writer must not cut an escape sequence in two
+    "long_token_x": "p" * 61 + "\\x41" * 30, "long_token_N": "q" * 70 + "\\N{DASH}" * 12, "long_token_nul": "r" * 83 + "\x00" * 12,
+    "long_token_backslashes": "s" * 79 + "\\" * 40, "long_token_quotes": "t" * 84 + '"""' * 10,
 }
 
 # positions whose text must come back as an exact string constant somewhere in the emitted package
